@@ -459,6 +459,35 @@ Section Model.
     | None => add_block st b sroot ex
     end.
 
+  (** ** Header-first sync: AddHeader / AddHeaders *)
+  Definition set_hdr_cache (st : ledger) (c : list (hash * header)) : ledger :=
+    mkLedger (cur_height st) (cur_hash st) c (hidx st) (hidx_first st) (hidx_last st)
+             (blk_cache st) (tx_cache st) (bloom_cache st) (blk_tree st) (st_tree st)
+             (pend_b st) (pend_s st) (pend_e st) (merkle_file st) (bstore st) (sstore st) (estore st).
+  (** addHeaderCache: this.headerCache[header.Hash()] = header *)
+  Definition add_header_cache (st : ledger) (hd : header) : ledger :=
+    set_hdr_cache st ((hd_hash hd, hd) :: filter (fun e => negb (fst e =? hd_hash hd)) (hdr_cache st)).
+
+  (** LedgerStoreImp.AddHeader: height = current header height + 1, verifyHeader (the same
+      function AddBlock runs again later), then header cache and header index. *)
+  Definition add_header (st : ledger) (hd : header) : ledger * option err :=
+    if negb (hd_height hd =? next_height (current_header_height st)) then (st, Some EHeight) else
+    match verify_header st hd with
+    | Some e => (st, Some e)
+    | None => (set_header_index (add_header_cache st hd) (hd_height hd) (hd_hash hd), None)
+    end.
+
+  (** AddHeaders on a list already sorted by height (the code sorts first): stops at the first
+      error; the headers before it stay added. *)
+  Fixpoint add_headers (st : ledger) (l : list header) : ledger * option err :=
+    match l with
+    | [] => (st, None)
+    | hd :: r => match add_header st hd with
+                 | (st', None) => add_headers st' r
+                 | (st', Some e) => (st', Some e)
+                 end
+    end.
+
   (** InitLedgerStoreWithGenesisBlock on an empty store: executeBlock + submitBlock, then
       SaveVersion (a direct Put on the block store). *)
   Definition init_genesis (g : block) (r : exec_res) : ledger * outcome :=
@@ -537,6 +566,26 @@ Definition model_trace_SubmitBlock : list string :=
   "if:err != nil";
   "return:error";
   "call:delHeaderCache";
+  "return:nil"].
+
+(* core/store/ledgerstore/ledger_store.go, func AddHeader *)
+Definition model_trace_AddHeader : list string :=
+ ["call:GetCurrentHeaderHeight";
+  "if:header.Height != nextHeaderHeight";
+  "return:error";
+  "call:verifyHeader";
+  "if:err != nil";
+  "return:error";
+  "call:addHeaderCache";
+  "call:setHeaderIndex";
+  "return:nil"].
+
+(* core/store/ledgerstore/ledger_store.go, func AddHeaders *)
+Definition model_trace_AddHeaders : list string :=
+ ["range:headers";
+  "call:AddHeader";
+  "if:err != nil";
+  "return:err";
   "return:nil"].
 
 (* core/store/ledgerstore/ledger_store.go, func saveBlock *)
